@@ -12,6 +12,9 @@ import XlModel.Lemmas.Bstr
 import XlModel.Lemmas.SaveGrid
 import XlModel.Lemmas.SaveGrid2
 import XlModel.Lemmas.SaveGrid3
+import XlModel.Lemmas.SaveGrid4
+import XlModel.Lemmas.SaveCols2
+import XlModel.Lemmas.SaveBook
 import XlModel.Lemmas.SaveCols
 import XlModel.Generated.FactsC01
 
@@ -163,14 +166,8 @@ theorem trim_keeps_valued_cells (cells : List Cell) :
 
 /-- open: `checkSheet` returns the saved rows of a dense sheet unchanged (no row is moved,
 merged into another, renumbered or lost; unbounded number of rows) -/
-theorem checkSheet_after_trim (s : List Row) (h : Dense s) : checkSheet (trimRow s) = .ok (trimRow s) := by
-  apply checkSheet_seq
-  · apply trimRow_seq
-    apply seq_of_index
-    intro i hi
-    have := (h.2 i hi).1
-    omega
-  · rw [trimRow_length]; exact h.1
+theorem checkSheet_after_trim (s : List Row) (h : Dense s) : checkSheet (trimRow s) = .ok (trimRow s) :=
+  checkSheet_after_trim_l s h
 
 /-- open: `checkRow` returns a dense row unchanged (row `i+1` inside the grid, any number of cells
 up to XFD): references decode to their own slot, nothing is rebuilt. Uses C20's codec round trip. -/
@@ -196,43 +193,8 @@ theorem trim_densify_assembly (s : List Row) (h : Dense s) (out : List (List Cel
     (hcontent : ∀ i (h1 : i < s.length) (h2 : i < out.length) (j : Nat),
       (out[i][j]?.map content).getD noContent = (s[i].cells[j]?.map content).getD noContent) :
     ∃ s', cycle s = .ok s' ∧ Dense s' ∧ (∀ i j, Grid.abs s' i j = Grid.abs s i j) ∧
-      s'.map (fun r => (r.r, r.attrs)) = s.map (fun r => (r.r, r.attrs)) := by
-  have hlen := trimRow_length s
-  have hcs := checkSheet_after_trim s h
-  have hcr := checkRowAux_of 0 (trimRow s) out (by omega) (by
-    intro i h1 h2
-    have := hrow i h1 h2
-    simpa using this)
-  refine ⟨List.zipWith (fun (r : Row) cs => { r with cells := cs }) (trimRow s) out, ?_, ?_, ?_, ?_⟩
-  · simp only [cycle, densify, hcs, Res.bind, checkRow]
-    exact hcr
-  · constructor
-    · simp only [List.length_zipWith]; have := h.1; omega
-    · intro i hi
-      simp only [List.length_zipWith] at hi
-      simp only [List.getElem_zipWith]
-      have hm := congrArg (fun l => l[i]?) (trimRow_map s)
-      simp only [List.getElem?_map] at hm
-      rw [List.getElem?_eq_getElem (by omega), List.getElem?_eq_getElem (by omega)] at hm
-      simp only [Option.map_some, Option.some.injEq, Prod.mk.injEq] at hm
-      exact ⟨by rw [hm.1]; exact (h.2 i (by omega)).1, hdense i (by omega)⟩
-  · intro i j
-    unfold Grid.abs
-    by_cases hi : i < s.length
-    · have hi2 : i < (List.zipWith (fun (r : Row) cs => { r with cells := cs }) (trimRow s) out).length := by
-        simp only [List.length_zipWith]; omega
-      rw [List.getElem?_eq_getElem hi2, List.getElem?_eq_getElem hi]
-      simp only [List.getElem_zipWith]
-      have := hcontent i hi (by omega) j
-      cases h1 : out[i][j]? <;> cases h2 : s[i].cells[j]? <;> simp [h1, h2] at this ⊢ <;> exact this
-    · have hi2 : ¬ i < (List.zipWith (fun (r : Row) cs => { r with cells := cs }) (trimRow s) out).length := by
-        simp only [List.length_zipWith]; omega
-      rw [List.getElem?_eq_none (by omega), List.getElem?_eq_none (by omega)]
-  · rw [← trimRow_map s]
-    apply List.ext_getElem
-    · simp only [List.length_map, List.length_zipWith]; omega
-    · intro i h1 h2
-      simp [List.getElem_zipWith]
+      s'.map (fun r => (r.r, r.attrs)) = s.map (fun r => (r.r, r.attrs)) :=
+  cycle_dense_assembly s h out hl hrow hdense hcontent
 
 /-- **trim_densify_obs** (full strength — the heart of "nothing dropped, reordered, retyped or
 altered"): for *every* dense sheet (any number of rows up to 1048576, any number of cells per row up
@@ -243,19 +205,8 @@ and the same eleven row attributes. Induction over rows (`checkSheet`) and over 
 `placeCells` over the compacted cells rebuilds the dense prefix up to the last valued cell). -/
 theorem trim_densify_obs (s : List Row) (h : Dense s) :
     ∃ s', cycle s = .ok s' ∧ Dense s' ∧ (∀ i j, Grid.abs s' i j = Grid.abs s i j) ∧
-      s'.map (fun r => (r.r, r.attrs)) = s.map (fun r => (r.r, r.attrs)) := by
-  have hl : (trimRow s).length = s.length := trimRow_length s
-  have hlo : (reopened (trimRow s)).length = s.length := by simp [reopened, hl]
-  apply trim_densify_assembly s h (reopened (trimRow s)) hlo
-  · intro i h1 h2
-    obtain ⟨_, _, ho, _, _⟩ := reopened_spec s h i (by omega)
-    exact ho
-  · intro i h2
-    obtain ⟨_, _, _, hd, _⟩ := reopened_spec s h i (by omega)
-    exact hd
-  · intro i h1 h2 j
-    obtain ⟨_, _, _, _, hc⟩ := reopened_spec s h i h1
-    exact hc j
+      s'.map (fun r => (r.r, r.attrs)) = s.map (fun r => (r.r, r.attrs)) :=
+  cycle_dense s h
 
 /-- a second save/open cycle: the reopened sheet is dense again, so the theorem applies to it and the
 second cycle again preserves content, density and row attributes (fixed point of the observation). -/
@@ -266,6 +217,110 @@ theorem trim_densify_second_cycle (s : List Row) (h : Dense s) :
   obtain ⟨s', h1, hd1, ha1, hm1⟩ := trim_densify_obs s h
   obtain ⟨s'', h2, hd2, ha2, hm2⟩ := trim_densify_obs s' hd1
   exact ⟨s', s'', h1, h2, hd2, fun i j => (ha2 i j).trans (ha1 i j), hm2.trans hm1⟩
+
+/-! ## the workbook: `open_save_obs` and `save_open_fixpoint` (DESIGN §4/C01) -/
+
+/-- column clause for reopened files: the preservation result for sorted, pairwise disjoint column
+*ranges* (what `<cols>` holds after a save), and the merged list has that shape again. -/
+theorem cols_merge_preserves_ranges (lo : Nat) (l : List SaveCols.Col) (h : SaveCols.RangesFrom lo l) :
+    (∀ c, SaveCols.look (SaveCols.mergeCols l) c = SaveCols.look l c) ∧
+      SaveCols.RangesFrom lo (SaveCols.mergeCols l) := by
+  unfold SaveCols.mergeCols
+  rw [SaveCols.sortCols_ranges lo l h]
+  exact ⟨SaveCols.look_mergeSorted_ranges lo l h, SaveCols.ranges_mergeSorted lo l h⟩
+
+/-- **open_save_obs**: for every workbook state satisfying `Inv` (every worksheet dense, `<cols>` sorted
+disjoint ranges, free text XML-legal — which `stored_xml_legal` gives for everything `SetCellStr` stores)
+and every XML layer that returns legal text unchanged, save + open succeeds, the result satisfies `Inv`
+again, and the modelled observation is identical: sheet list with order, names and visibility, active
+tab, defined names (name, refersTo, comment, scope), shared strings, and per worksheet the content at
+every position, row numbers and attributes, the attributes every column resolves to, the merged ranges.
+Assembled from `trim_densify_obs`, `cols_merge_preserves_ranges` and the string-path theorems. -/
+theorem open_save_obs (x : List Char → List Char) (hx : ∀ t, SaveBook.LegalS t → x t = t)
+    (b : SaveBook.Book) (h : SaveBook.Inv b) :
+    ∃ b', SaveBook.cycleBook x b = .ok b' ∧ SaveBook.Inv b' ∧ SaveBook.ObsEq b' b :=
+  SaveBook.cycle_book x hx b h
+
+/-- **save_open_fixpoint**: a second save/open cycle succeeds as well and shows the same observation as
+the first result and as the original workbook. -/
+theorem save_open_fixpoint (x : List Char → List Char) (hx : ∀ t, SaveBook.LegalS t → x t = t)
+    (b : SaveBook.Book) (h : SaveBook.Inv b) :
+    ∃ b' b'', SaveBook.cycleBook x b = .ok b' ∧ SaveBook.cycleBook x b' = .ok b'' ∧
+      SaveBook.ObsEq b'' b' ∧ SaveBook.ObsEq b'' b := by
+  obtain ⟨b', h1, hi1, ho1⟩ := SaveBook.cycle_book x hx b h
+  obtain ⟨b'', h2, _, ho2⟩ := SaveBook.cycle_book x hx b' hi1
+  exact ⟨b', b'', h1, h2, ho2, SaveBook.obsEq_trans ho2 ho1⟩
+
+/-- the XML layer observed on Go satisfies the hypothesis of the two theorems above -/
+theorem xmlGo_legal_law (t : List Char) (h : SaveBook.LegalS t) : xmlGo t = t := xmlGo_law t h
+
+/-- the raw value of every cell (shared string resolved through the table, inline string, number or
+boolean text) is a function of the observation, hence unchanged -/
+theorem raw_value_preserved (s' s : SaveBook.Sheet) (sst' sst : List (List Char))
+    (h : SaveBook.SheetEq s' s) (e : sst' = sst) (i j : Nat) :
+    SaveBook.rawValue sst' (Grid.abs s'.rows i j) = SaveBook.rawValue sst (Grid.abs s.rows i j) := by
+  rw [h.2.2.1 i j, e]
+
+/-- `int_text_roundtrip`: `SetCellInt n` stores `strconv.FormatInt` text with no type; it is XML-legal
+content (so `Inv` holds for it), its raw value is that text whatever the shared strings are, and for
+`0 ≤ n < 2^63` the text parses back to `n`. -/
+theorem int_text_roundtrip (n : Int) (sst : List (List Char)) :
+    SaveBook.rawValue sst ⟨0, [], Ref.itoaInt n, none, none⟩ = Ref.itoaInt n := by
+  simp [SaveBook.rawValue]
+
+theorem int_text_parses (n : Nat) (h : n < 9223372036854775808) :
+    Ref.atoi (Ref.itoaInt (n : Int)) = some (n : Int) := by
+  by_cases h0 : n = 0
+  · subst h0; decide
+  · have hn : 1 ≤ n := by omega
+    have hi : Ref.itoaInt (n : Int) = Ref.itoaAux n := by
+      rw [Ref.itoaInt_pos (by omega)]; simp [Ref.itoa, h0]
+    rw [hi, Ref.atoi_digits (Ref.itoaAux_ne_nil hn) (Ref.itoaAux_digits n), Ref.digitsVal_itoaAux hn]
+    simp [h]
+
+/-- `bool_text_roundtrip`: `SetCellBool b` stores type `b` and `1`/`0`; raw value and displayed value -/
+theorem bool_text_roundtrip (b : Bool) (sst : List (List Char)) :
+    SaveBook.rawValue sst ⟨0, ['b'], if b then ['1'] else ['0'], none, none⟩ = (if b then ['1'] else ['0']) ∧
+    SaveBook.boolText (if b then ['1'] else ['0']) = (if b then "TRUE".toList else "FALSE".toList) := by
+  cases b <;> simp [SaveBook.rawValue, SaveBook.boolText] <;> decide
+
+/-- non-vacuity of `Inv`: a workbook with one sheet holding a shared string, an integer and a boolean,
+one styled column range and a defined name satisfies it -/
+theorem inv_witness :
+    SaveBook.Inv ⟨[⟨"Sheet1".toList, .visible,
+        [⟨1, emptyAttrs, [⟨"A1".toList, 0, ['s'], ['0'], none, none⟩, blank "B1".toList,
+          ⟨"C1".toList, 0, ['b'], ['1'], none, none⟩]⟩],
+        [⟨2, 3, ⟨false, false, true, false, 0, false, 1, some "30".toList⟩⟩], ["A1:B2".toList]⟩], 0,
+      [⟨"Name1".toList, "Sheet1!$A$1".toList, [], none⟩], [storedText "_x0041_".toList]⟩ := by
+  refine ⟨?_, ?_, ?_⟩
+  · intro s hs
+    simp only [List.mem_singleton] at hs
+    subst hs
+    refine ⟨⟨by decide, ?_⟩, ⟨0, by simp [SaveCols.RangesFrom]⟩, (by unfold SaveBook.LegalS; decide), ?_⟩
+    · intro i hi
+      have : i = 0 := by simpa using hi
+      subst this
+      simp only [List.getElem_cons_zero]
+      refine ⟨by simp, by decide, ?_⟩
+      intro j hj
+      have : j = 0 ∨ j = 1 ∨ j = 2 := by simp at hj; omega
+      rcases this with rfl | rfl | rfl <;> simp only [List.getElem_cons_succ, List.getElem_cons_zero] <;>
+        exact ⟨by decide +kernel, by decide⟩
+    · apply SaveBook.legal_abs_of_cells
+      intro r hr c hc
+      simp only [List.mem_singleton] at hr
+      subst hr
+      simp only [List.mem_cons, List.not_mem_nil, or_false] at hc
+      rcases hc with rfl | rfl | rfl <;>
+        exact ⟨(by unfold SaveBook.LegalS; decide), (by unfold SaveBook.LegalS; decide), trivial, trivial⟩
+  · intro d hd
+    simp only [List.mem_singleton] at hd
+    subst hd
+    exact ⟨(by unfold SaveBook.LegalS; decide), (by unfold SaveBook.LegalS; decide), (by intro c hc; cases hc)⟩
+  · intro t ht
+    simp only [List.mem_singleton] at ht
+    subst ht
+    exact stored_xml_legal _
 
 /-- FIXED FINDING (why a worksheet that stays cached across a save has to be re-densified, which
 `workSheetWriter` now does): `trimRow` alone breaks the representation invariant the setters
